@@ -31,6 +31,8 @@ static Scenario make_c06(std::map<std::string, long> const& cfg)
     w.backend_options.transit_event_buffer_initial_capacity = static_cast<size_t>(s.c("tbuf", 2));
     w.backend_options.transit_events_soft_limit = static_cast<size_t>(s.c("soft", 4));
     w.backend_options.transit_events_hard_limit = static_cast<size_t>(s.c("hard", 4));
+    // with a non-zero interval the idle branch does not flush the sinks on every poll: only the flush request does
+    w.backend_options.sink_min_flush_interval = std::chrono::milliseconds{s.c("flushint_ms", 0)};
     auto s1 = std::make_shared<RecSink>(1);
     std::vector<std::shared_ptr<Sink>> sinks{s1};
     if (s.c("file", 0))
